@@ -68,6 +68,9 @@ const (
 	OpFToS
 	OpFToU
 	OpFToF
+	OpFRoundZ // roundToIntegral toward zero (math.Trunc)
+	OpFRoundN // toward -inf (math.Floor)
+	OpFRoundP // toward +inf (math.Ceil)
 )
 
 var opNames = map[Op]string{
@@ -77,7 +80,7 @@ var opNames = map[Op]string{
 	OpBAnd: "bvand", OpBOr: "bvor", OpBXor: "bvxor", OpBNot: "bvnot", OpNeg: "bvneg",
 	OpULt: "bvult", OpULe: "bvule", OpSLt: "bvslt", OpSLe: "bvsle", OpConcat: "concat",
 	OpFAdd: "fp.add RNE", OpFSub: "fp.sub RNE", OpFMul: "fp.mul RNE", OpFDiv: "fp.div RNE",
-	OpFNeg: "fp.neg", OpFLt: "fp.lt", OpFLe: "fp.leq", OpFEq: "fp.eq", OpFIsNaN: "fp.isNaN",
+	OpFNeg: "fp.neg", OpFRoundZ: "fp.roundToIntegral RTZ", OpFRoundN: "fp.roundToIntegral RTN", OpFRoundP: "fp.roundToIntegral RTP", OpFLt: "fp.lt", OpFLe: "fp.leq", OpFEq: "fp.eq", OpFIsNaN: "fp.isNaN",
 }
 
 type Term struct {
@@ -355,6 +358,17 @@ func evalOp(op Op, sort Sort, w uint8, aux uint16, args []*Term, av []uint64) ui
 			r = a / b
 		}
 		return math.Float64bits(r)
+	case OpFRoundZ, OpFRoundN, OpFRoundP:
+		f := bits2f(w, av[0])
+		switch op {
+		case OpFRoundZ:
+			f = math.Trunc(f)
+		case OpFRoundN:
+			f = math.Floor(f)
+		default:
+			f = math.Ceil(f)
+		}
+		return f2bits(w, f)
 	case OpFNeg:
 		if w == 32 {
 			return av[0] ^ (1 << 31)
